@@ -183,6 +183,25 @@ static void op_rgbm(const Case& c, Outcome& o) {
   for (int i = 0; i < 3; ++i) if (!(std::fabs(u[i] - in[i]) <= 1e-5f * std::max(1.0f, std::fabs(in[i])))) { o.res(b32(u[i]), i); o.exp(b32(in[i])); o.bad(3, "unpackRGBM(packRGBM(c)) != c"); return; }
 }
 
+// ------------------------------------------------------------------ operands at the least alignment their type allows
+// vec<L, uint8/int8> has alignof 1 and vec<L, uint16/int16> alignof 2: a caller may hold them at any such address (e.g. inside a
+// packed vertex struct).  The result must not depend on the address (and, under the sanitizer build, no misaligned access may happen).
+template <typename V, typename W, W (*PACK)(V const&), V (*UNPACK)(W)> static bool unaligned_one(const uint64_t* w, Outcome& o, const char* name) {
+  typedef typename V::value_type T; alignas(16) unsigned char buf[64];
+  V ref; for (int i = 0; i < (int)V::length(); ++i) ref[i] = (T)w[i];
+  W want = PACK(ref);
+  for (size_t off = alignof(V); off <= 3 * alignof(V) + 1 && off < 16; off += alignof(V)) { std::memcpy(buf + off, &ref, sizeof(V)); V const& at = *reinterpret_cast<V const*>(buf + off); W got = PACK(at);
+    if (std::memcmp(&got, &want, sizeof(W)) != 0) { o.res((uint64_t)off); char m[160]; std::snprintf(m, sizeof m, "%s: result depends on the address of its operand (offset %zu from a 16-byte boundary)", name, off); o.bad(1, m); return false; } }
+  V back = UNPACK(want); for (int i = 0; i < (int)V::length(); ++i) if (back[i] != ref[i]) { o.bad(2, "integer pack/unpack round trip"); return false; }
+  return true;
+}
+static void op_unaligned(const Case& c, Outcome& o) { o.cls(0);
+#define UA(V, W, P, U) if (!unaligned_one<glm::V, W, glm::P, glm::U>(c.w, o, #P)) return;
+  UA(i8vec2, glm::int16, packInt2x8, unpackInt2x8) UA(u8vec2, glm::uint16, packUint2x8, unpackUint2x8) UA(i8vec4, glm::int32, packInt4x8, unpackInt4x8) UA(u8vec4, glm::uint32, packUint4x8, unpackUint4x8)
+  UA(i16vec2, int, packInt2x16, unpackInt2x16) UA(u16vec2, glm::uint, packUint2x16, unpackUint2x16) UA(i16vec4, glm::int64, packInt4x16, unpackInt4x16) UA(u16vec4, glm::uint64, packUint4x16, unpackUint4x16)
+  UA(i32vec2, glm::int64, packInt2x32, unpackInt2x32) UA(u32vec2, glm::uint64, packUint2x32, unpackUint2x32)
+}
+
 int main(int argc, char** argv) {
   Engine E; E.property = "C06";
   E.assumptions = {"small-float (11/10-bit) codes are interpreted as GLM documents them: exponent bias 15, implicit leading one for every non-zero code, exponent 31 = Inf/NaN; the statement constrains consistency, clamping, accuracy and layout, not subnormal semantics",
@@ -213,6 +232,7 @@ int main(int argc, char** argv) {
   { Op& op = E.add("F3x9_E1x5 reals: one mantissa step, clamping, minimal shared exponent", op_e5_reals);
     std::vector<uint64_t> xs; for (uint32_t e = 100; e <= 146; ++e) for (uint32_t m : {0u, 1u, 0x7fffffu, 0x400000u, 0x3fffffu, 0x7f8000u, 0x7fc000u, 0x123456u, 0x7f0000u, 0x7e0000u}) { xs.push_back((e << 23) | m); } xs.push_back(0); xs.push_back(0x80000000u); xs.push_back(b32(-1.f)); xs.push_back(b32(65408.f)); xs.push_back(b32(65409.f)); xs.push_back(b32(1e10f)); xs.push_back(0x7f800000u);
     Domain dx = list("E5_REALS", xs); op.quick = {product("E5_REALS^2 x lane", {dx, dx, range("LANE", 0, 3, true)})}; op.classes = {"all-zero", "in-range", "clamped-to-max"}; }
+  { Domain t = list("TAGS", {0, 1, 0x7f, 0x80, 0xff, 0x1234, 0x8000, 0xffff, 0x12345678, 0x80000000u, 0xffffffffu}); Op& op = E.add("integer pack functions on operands at every address their alignment allows", op_unaligned); op.quick = {product("TAGS^4", {t, t, t, t})}; }
   { Domain e32 = INT_EDGE(32); Op& op = E.add("packDouble2x32/unpackDouble2x32", op_double2x32); op.quick = {product("INT32_EDGE^2", {e32, e32})}; }
   { std::vector<uint64_t> cs; for (float v : {0.001f, 0.01f, 0.1f, 0.25f, 0.5f, 0.9f, 1.f, 1.5f, 2.f, 3.f, 5.9f, 6.f}) cs.push_back(b32(v)); Domain dc = list("RGBM_VALUES", cs);
     Op& op = E.add("packRGBM/unpackRGBM", op_rgbm); op.quick = {product("RGBM_VALUES^3", {dc, dc, dc})}; }
